@@ -4,7 +4,8 @@ cd "$(dirname "$0")/.." || exit 2
 id=$1; props=$2; out=${3:-/tmp/seed_${id}_out}; wt=/tmp/st_$id
 mkdir -p seeded/$id
 [ -f $out/patch.diff ] && cp $out/patch.diff $out/demo.py $out/demo $out/meta.json seeded/$id/ 2>/dev/null
-if [ -f seeded/$id/demo ]; then rundemo() { chmod +x /verif/seeded/$id/demo; PYTHONPATH=$wt timeout 900 /verif/seeded/$id/demo $wt; }
+if [ -f seeded/$id/demo ] && head -1 seeded/$id/demo | grep -q python; then rundemo() { PYTHONPATH=$wt timeout 900 /venv/bin/python /verif/seeded/$id/demo $wt; }
+elif [ -f seeded/$id/demo ]; then rundemo() { chmod +x /verif/seeded/$id/demo; PYTHONPATH=$wt timeout 900 /verif/seeded/$id/demo $wt; }
 else rundemo() { PYTHONPATH=$wt timeout 900 /venv/bin/python /verif/seeded/$id/demo.py; }; fi
 git -C /repo worktree remove --force $wt 2>/dev/null
 git -C /repo worktree add -q --detach $wt HEAD || exit 3
